@@ -5,6 +5,7 @@ import Model.Places
 import Proofs.C02Trunc
 import Proofs.C02Multi
 import Proofs.C02Tables
+import Proofs.C02Sound
 /-! # C02 — assignments and compound assignments on every kind of place behave as in Go
 
 Theorems about the model (arm templates, dispatch transcription, statement-level `Places` model)
@@ -96,5 +97,59 @@ theorem incdec_is_compound_one (k : Kind) (pl : C02Dispatch.Place) (rhs : C02Dis
   simp [C02Dispatch.compile, h]
 
 theorem incdec_source : Gen.C02Statement.incDecSrc = C02Once.incDecGolden := C02Tables.incDec_src
+
+
+/-! ## var_table_sound (partial): int-slot `var<Op>Const|Expr`, non-loop `switch upn` cases -/
+
+/-- an accepted entry whose path classifies as an int-slot variable arm HAS the template body of
+    that class (this is what acceptance means; with `tables_accepted` it holds for every arm of the
+    real tables) -/
+theorem accepted_body (e : SEntry) (sp : ArmSpec) (hc : classify e = some sp) (hs : sp ≠ .outOfScope)
+    (ha : accept e = true) : e.body = sp.body := by
+  unfold accept at ha
+  rw [hc] at ha
+  cases sp <;> simp_all
+
+/-- `var_table_sound`, proved part: the body of an accepted `var<Op>Const` arm under `if intbinds`
+    (every operator incl. shifts, every kind, `switch upn` cases 0, 1, 2, `c.Depth-1`), run in ANY
+    machine: reads slot `index` of the frame its path names at kind `k`, stores `GoSpec.binop op old val`
+    there at kind `k`, advances `IP` by one; a panic of the operator stores nothing.  PARTIAL: the
+    `default` (loop) case, the boxed arms, `varSet*`, `varQuoPow2` and the place arms are validated by
+    the correspondence run only. -/
+theorem var_table_sound_partial (F : FloatOps) (e : SEntry) (op : BinOp) (k : Kind) (u : Upn) (hu : u ≠ .loop)
+    (hc : classify e = some (.varOp op k u true .const)) (ha : accept e = true)
+    (ρ : StmtIR.Store) (m : Mach) (idx : Nat) (c x : Val)
+    (hval : StmtIR.lookup ρ "val" = some (.val c)) (hidx : StmtIR.lookup ρ "index" = some (.nat idx))
+    (hx : readPtr m k (C02Sound.hopOf u m 0) idx = some x) :
+    StmtIR.execBody F e.body (StmtIR.update ρ "env" (.envp 0)) m =
+      C02Sound.specUnboxed F op k m (C02Sound.hopOf u m 0) idx x c := by
+  rw [accepted_body e _ hc (by simp) ha]
+  exact C02Sound.varOp_unboxed_const F op k u hu ρ m idx c x hval hidx hx
+
+/-- the same for `var<Op>Expr`: the operand closure is applied exactly once (its id is appended to
+    the log) before the variable is loaded -/
+theorem var_table_sound_expr_partial (F : FloatOps) (e : SEntry) (op : BinOp) (k : Kind) (u : Upn) (hu : u ≠ .loop)
+    (hc : classify e = some (.varOp op k u true .expr)) (ha : accept e = true)
+    (ρ : StmtIR.Store) (m : Mach) (idx : Nat) (c x : Val) (kf : Kind) (id : Nat)
+    (hfun : StmtIR.lookup ρ "fun" = some (.clo kf id (.ok c))) (hidx : StmtIR.lookup ρ "index" = some (.nat idx))
+    (hx : readPtr m k (C02Sound.hopOf u m 0) idx = some x) :
+    StmtIR.execBody F e.body (StmtIR.update ρ "env" (.envp 0)) m =
+      C02Sound.specUnboxed F op k { m with log := m.log ++ [id] } (C02Sound.hopOf u m 0) idx x c := by
+  rw [accepted_body e _ hc (by simp) ha]
+  exact C02Sound.varOp_unboxed_expr F op k u hu ρ m idx c x kf id hfun hidx hx
+
+/-- frame condition of the store: nothing but `frames[h].ints` changes -/
+theorem slot_write_frame {m m' : Mach} {k : Kind} {h i : Nat} {v : Val} (hw : writePtr m k h i v = some m') :
+    m'.frames.length = m.frames.length ∧ m'.fileIdx = m.fileIdx ∧ m'.ip = m.ip ∧ m'.heap = m.heap ∧
+    m'.maps = m.maps ∧ m'.log = m.log ∧
+    (∀ h', h' ≠ h → m'.frames[h']? = m.frames[h']?) ∧
+    (∀ f f', m.frames[h]? = some f → m'.frames[h]? = some f' → f'.vals = f.vals) :=
+  C02Sound.writePtr_frame hw
+
+/-- non-vacuity: `x += 5` on an int8 in slot 1 of the current frame, the slot's upper bytes hold garbage -/
+example :
+    let fr : Frame := { ints := [0#64, 0xA5A5A5A5A5A5A57F#64, 0#64], vals := [] }
+    let m : Mach := { frames := [fr], fileIdx := 0, ip := 3, heap := [], maps := [], log := [] }
+    readPtr m .int8 0 1 = some (.int ⟨8, true⟩ 0x7F#8) := by rfl
 
 end C02
